@@ -195,6 +195,14 @@ impl Domain {
     }
 }
 
+/// Verification hook: read access to the label octets.
+#[cfg(feature = "verif")]
+impl Domain {
+    pub fn verif_labels(&self) -> Vec<Vec<u8>> {
+        self.0.iter().map(|l| l.0.clone()).collect()
+    }
+}
+
 impl From<Vec<Label>> for Domain {
     fn from(mut v: Vec<Label>) -> Self {
         v.shrink_to_fit();
@@ -854,6 +862,13 @@ fn make_edns_opt(v: &mut Vec<u8>, t: &EdnsOption) {
     push_u16(v, t.code.0);
     push_u16(v, t.data.len() as u16);
     v.extend_from_slice(t.data.as_slice());
+}
+
+#[cfg(feature = "verif")]
+impl EdnsData {
+    pub fn verif_options(&self) -> &[EdnsOption] {
+        &self.0
+    }
 }
 
 impl EdnsData {
